@@ -75,15 +75,16 @@ type sgEvent struct {
 }
 
 type nfa struct {
-	P         *Program
-	state     map[ssa.Value]int // 1 assumed (in progress), 2 yes, 3 no
-	why       map[ssa.Value]string
-	sgrParams map[*ssa.Parameter]bool // parameters used as SGR parameter text
-	busy      map[ssa.Value]bool
+	P            *Program
+	state        map[ssa.Value]int // 1 assumed (in progress), 2 yes, 3 no
+	why          map[ssa.Value]string
+	sgrParams    map[*ssa.Parameter]bool // parameters used as SGR parameter text
+	busy         map[ssa.Value]bool
+	cleanGlobals map[*ssa.Global]bool
 }
 
 func newNFA(P *Program) *nfa {
-	return &nfa{P: P, state: map[ssa.Value]int{}, why: map[ssa.Value]string{}, sgrParams: map[*ssa.Parameter]bool{}, busy: map[ssa.Value]bool{}}
+	return &nfa{P: P, state: map[ssa.Value]int{}, why: map[ssa.Value]string{}, sgrParams: map[*ssa.Parameter]bool{}, busy: map[ssa.Value]bool{}, cleanGlobals: map[*ssa.Global]bool{}}
 }
 
 func inAnsi(fn *ssa.Function) bool {
@@ -411,6 +412,8 @@ func (a *nfa) clean(v ssa.Value, d int) bool {
 		return a.clean(x.X, d+1)
 	case *ssa.Slice:
 		return a.clean(x.X, d+1)
+	case *ssa.UnOp, *ssa.Lookup, *ssa.Index, *ssa.Extract:
+		return a.fromCleanTable(x)
 	case *ssa.Call:
 		if sc := x.Call.StaticCallee(); sc != nil {
 			if inAnsi(sc) && sc.Name() == "Scrub" {
@@ -444,7 +447,7 @@ func (a *nfa) clean(v ssa.Value, d int) bool {
 									if k == 0x1b {
 										okMap = false
 									}
-								} else if r != ssa.Value(f.Params[0]) {
+								} else if r != ssa.Value(f.Params[0]) && !a.fromCleanTable(r) {
 									okMap = false
 								}
 							}
@@ -468,6 +471,117 @@ func (a *nfa) clean(v ssa.Value, d int) bool {
 		}
 	}
 	return false
+}
+
+// fromCleanTable: v is read from a package-level array, slice or map that only
+// ever holds constants without an escape byte.
+func (a *nfa) fromCleanTable(v ssa.Value) bool {
+	var root ssa.Value
+	switch x := v.(type) {
+	case *ssa.Extract:
+		if lk, ok := x.Tuple.(*ssa.Lookup); ok && x.Index == 0 {
+			root = lk.X
+		}
+	case *ssa.Lookup:
+		root = x.X
+	case *ssa.Index:
+		root = x.X
+	case *ssa.UnOp:
+		if x.Op == token.MUL {
+			if ia, ok := x.X.(*ssa.IndexAddr); ok {
+				root = ia.X
+			}
+		}
+	}
+	if root == nil {
+		return false
+	}
+	if ld, ok := root.(*ssa.UnOp); ok && ld.Op == token.MUL {
+		root = ld.X
+	}
+	g, ok := root.(*ssa.Global)
+	if !ok || g.Pkg == nil {
+		return false
+	}
+	if r, done := a.cleanGlobals[g]; done {
+		return r
+	}
+	res := true
+	constOK := func(val ssa.Value) bool {
+		cst, ok := val.(*ssa.Const)
+		if !ok {
+			return false
+		}
+		if s, ok := constString(cst); ok {
+			return !strings.ContainsRune(s, 0x1b)
+		}
+		if k, ok := constInt(cst); ok {
+			return k != 0x1b
+		}
+		return cst.Value == nil
+	}
+	// the literal(s) stored into g, and every write through g
+	lits := map[ssa.Value]bool{}
+	for _, m := range g.Pkg.Members {
+		f, ok := m.(*ssa.Function)
+		if !ok {
+			continue
+		}
+		for _, ff := range append([]*ssa.Function{f}, f.AnonFuncs...) {
+			eachInstr(ff, func(_ *ssa.BasicBlock, _ int, in ssa.Instruction) {
+				if st, ok := in.(*ssa.Store); ok && st.Addr == ssa.Value(g) {
+					switch y := st.Val.(type) {
+					case *ssa.MakeMap:
+						lits[y] = true
+					case *ssa.Slice:
+						lits[y.X] = true
+					default:
+						if !constOK(st.Val) {
+							res = false
+						}
+					}
+				}
+			})
+		}
+	}
+	for _, m := range g.Pkg.Members {
+		f, ok := m.(*ssa.Function)
+		if !ok {
+			continue
+		}
+		for _, ff := range append([]*ssa.Function{f}, f.AnonFuncs...) {
+			eachInstr(ff, func(_ *ssa.BasicBlock, _ int, in ssa.Instruction) {
+				switch y := in.(type) {
+				case *ssa.MapUpdate:
+					mp := y.Map
+					if ld, ok := mp.(*ssa.UnOp); ok && ld.Op == token.MUL {
+						mp = ld.X
+					}
+					if mp == ssa.Value(g) || lits[y.Map] {
+						if !constOK(y.Value) {
+							res = false
+						}
+					}
+				case *ssa.Store:
+					ia, ok := y.Addr.(*ssa.IndexAddr)
+					if !ok {
+						return
+					}
+					base := ia.X
+					if ld, ok := base.(*ssa.UnOp); ok && ld.Op == token.MUL {
+						base = ld.X
+					}
+					if base == ssa.Value(g) || lits[ia.X] {
+						if !constOK(y.Val) {
+							res = false
+						}
+					}
+				}
+			})
+		}
+	}
+	a.cleanGlobals[g] = res
+	return res
 }
 
 // safeCut: i is a position in x where cutting keeps the form: the index of a
@@ -1062,6 +1176,7 @@ func c14R3(c *Ctx) {
 				if !edits {
 					return
 				}
+				nSinks++
 				for _, arg := range x.Call.Args {
 					if isStringType(arg.Type()) && styled(arg) {
 						operand, what = arg, "handed to "+sc.String()
@@ -1075,7 +1190,9 @@ func c14R3(c *Ctx) {
 			if operand == nil {
 				return
 			}
-			nSinks++
+			if _, isCall := in.(*ssa.Call); !isCall {
+				nSinks++
+			}
 			if !styled(operand) {
 				return
 			}
